@@ -61,7 +61,7 @@ def main():
         if not ok_drv:
             ctx.log('driver build failed:\n' + out_drv[-3000:])
             broken.append({'what': 'model driver no longer builds against the generated tables', 'log': out_drv[-3000:]})
-        targets = [f'Hpl.Props.{m}' for m in mod.PROPS_MODULES]
+        targets = [C.module_name(m) for m in mod.PROPS_MODULES]
         ok_props, out_props = C.lake_build(targets)
         names, okn, bad, audit_log = [], [], {}, ''
         if ok_props:
@@ -72,7 +72,7 @@ def main():
             ctx.log('proof build failed:\n' + '\n'.join(failing[:20]))
             broken.append({'what': 'proof obligations no longer check: lake build ' + ' '.join(targets), 'errors': failing[:40]})
             for m in mod.PROPS_MODULES:
-                names += C.theorem_names(os.path.join(C.LEAN_DIR, 'Hpl', 'Props', f'{m}.lean'))
+                names += C.theorem_names(C.module_path(m))
         forb = C.forbidden_scan()
     if bad:
         broken.append({'what': 'axiom audit failed', 'theorems': bad})
